@@ -41,13 +41,15 @@ type c16Template struct {
 }
 
 var c16Kinds = map[string][][2]string{
-	"int":  {{"var", "a"}, {"const", "2"}, {"neg", "-1"}, {"call", "obs(1)"}, {"binary", "a + b"}, {"paren", "(b)"}},
+	"int":  {{"var", "a"}, {"const", "2"}, {"neg", "-1"}, {"call", "obs(1)"}, {"binary", "a + b"}, {"paren", "(b)"}, {"recv", "<-ich"}},
 	"bool": {{"var", "p"}, {"const", "true"}, {"neg", "!q"}, {"call", "obsb(q)"}, {"binary", "p || q"}, {"paren", "(q)"}, {"cmp", "a < b"}},
 	"str":  {{"var", "s"}, {"const", `"k"`}, {"neg", `"-1"`}, {"call", "obss(t)"}, {"binary", "s + t"}, {"paren", "(t)"}},
 	// float64 operands; the parameters f and g run over NaN, +Inf, -Inf, -0.0, 0 and 1
-	"flt": {{"var", "f"}, {"const", "1.0"}, {"neg", "-0.5"}, {"call", "obsf(g)"}, {"binary", "f + g"}, {"paren", "(g)"}},
+	"flt": {{"var", "f"}, {"const", "1.0"}, {"neg", "-0.5"}, {"call", "obsf(g)"}, {"binary", "f + g"}, {"paren", "(g)"}, {"recv", "<-fch"}},
 	// comparison operators (a hole of this type is an operator, not an operand)
-	"op": {{"lt", "<"}, {"le", "<="}, {"gt", ">"}, {"ge", ">="}, {"eq", "=="}, {"ne", "!="}},
+	// exponent literals of math.Pow (QF1005 removes the operand for 0, repeats it for 2 and 3)
+	"exp": {{"e0", "0"}, {"e1", "1"}, {"e2", "2"}, {"e3", "3"}},
+	"op":  {{"lt", "<"}, {"le", "<="}, {"gt", ">"}, {"ge", ">="}, {"eq", "=="}, {"ne", "!="}},
 }
 
 var c16Templates = []c16Template{
@@ -113,11 +115,18 @@ var c16Templates = []c16Template{
 	{"S1002f", "S1002", []string{"flt", "op"}, `ret = $0 $1 g != true`},
 	{"S1033b", "S1033", []string{"flt"}, `m := map[float64]int{1: 1, 0: 2};; if _, ok := m[$0]; ok { delete(m, $0) };; ret = len(m)`},
 	{"S1036c", "S1036", []string{"flt"}, `m := map[float64]int{1: 1};; if _, ok := m[$0]; ok { m[$0] += 2 } else { m[$0] = 2 };; ret = len(m)`},
+	// fixes that delete or repeat an operand: every operand kind (incl. logging call and channel
+	// receive) under every exponent; results are not compared for QF1005 (rounding), effects are
+	{"QF1005a", "QF1005", []string{"flt", "exp"}, `ret = math.Pow($0, $1)`},
+	{"QF1005b", "QF1005", []string{"int", "exp"}, `ret = math.Pow(float64($0), $1)`},
+	{"QF1005c", "QF1005", []string{"flt", "exp"}, `ret = math.Pow($0, $1) + math.Pow(g, 2)`},
 	{"QF1012a", "QF1012", []string{"int", "str"}, `var sb strings.Builder;; sb.WriteString(fmt.Sprintf("%d-%s", $0, $1));; ret = sb.String()`},
 	{"QF1012b", "QF1012", []string{"int"}, `var buf bytes.Buffer;; buf.Write([]byte(fmt.Sprint($0)));; ret = buf.String()`},
 }
 
-// checks whose fix changes meaning on purpose or depends on time / float rounding: enumerated only
+// checks whose fix changes the result on purpose or depends on time / float rounding: for their
+// fixes the returned value is not compared; panics and the effect trace (obs log, items left in the
+// channels) still are, since no fix may drop, add or reorder a visible effect
 var c16BehaviourUnasserted = map[string]string{
 	"QF1005": "math.Pow expansion (float rounding)",
 	"QF1009": "== replaced by Time.Equal on purpose",
@@ -133,6 +142,7 @@ import (
 	"bytes"
 	"errors"
 	"fmt"
+	"math"
 	"net/http"
 	"strings"
 	"time"
@@ -142,12 +152,20 @@ var (
 	_ = bytes.Compare
 	_ = errors.New
 	_ = fmt.Sprint
+	_ = math.Pow
 	_ = http.CanonicalHeaderKey
 	_ = strings.Index
 	_ time.Duration
 )
 
 var Log []string
+
+// channels the "recv" operands receive from; the driver refills them with ones before every call
+// and records how many items are left afterwards
+var (
+	ich = make(chan int, 16)
+	fch = make(chan float64, 16)
+)
 
 func obs(i int) int        { Log = append(Log, fmt.Sprint("i", i)); return i }
 func obsb(b bool) bool     { Log = append(Log, fmt.Sprint("b", b)); return b }
@@ -227,12 +245,13 @@ func c16FixChecks() []string {
 var c16FuncRe = regexp.MustCompile(`^T_([A-Z]+[0-9]+[a-z])_`)
 
 type c16Pair struct {
-	Name    string // unique
-	Fill    *c16Filling
-	Check   string
-	FixIdx  int
-	FixMsg  string
-	Patched string // patched function declaration, renamed
+	Name        string // unique
+	Fill        *c16Filling
+	Check       string
+	FixIdx      int
+	FixMsg      string
+	Patched     string // patched function declaration, renamed
+	EffectsOnly bool   // results are not compared (check listed in c16BehaviourUnasserted)
 }
 
 func c16RunTemplates(res *vx.Result, st *c16Stats, u c16Unit) {
@@ -250,7 +269,10 @@ func c16RunTemplates(res *vx.Result, st *c16Stats, u c16Unit) {
 	for _, c := range c16FixChecks() {
 		switch {
 		case c16BehaviourUnasserted[c] != "":
-			res.Unassert("behaviour of " + c + " fixes: " + c16BehaviourUnasserted[c])
+			res.Unassert("results of " + c + " fixes are not compared (panics and effects are): " + c16BehaviourUnasserted[c])
+			if have[c] {
+				asserted = append(asserted, c)
+			}
 		case have[c]:
 			asserted = append(asserted, c)
 		default:
@@ -359,9 +381,9 @@ func c16RunTemplates(res *vx.Result, st *c16Stats, u c16Unit) {
 		if !strings.HasPrefix(d.Category, "S1") && !strings.HasPrefix(d.Category, "QF") {
 			return
 		}
-		if why := c16BehaviourUnasserted[d.Category]; why != "" {
+		effectsOnly := c16BehaviourUnasserted[d.Category] != ""
+		if effectsOnly {
 			st.add(func(s *c16Stats) { s.pairsUnasserted++ })
-			return
 		}
 		// the patched function
 		pfset := token.NewFileSet()
@@ -382,7 +404,7 @@ func c16RunTemplates(res *vx.Result, st *c16Stats, u c16Unit) {
 		}
 		name := fmt.Sprintf("N%d_%s", len(pairs), fn)
 		decl = strings.Replace(decl, "func "+fn+"(", "func "+name+"(", 1)
-		pairs = append(pairs, c16Pair{Name: name, Fill: fill, Check: d.Category, FixIdx: fi, FixMsg: d.SuggestedFixes[fi].Message, Patched: decl})
+		pairs = append(pairs, c16Pair{Name: name, Fill: fill, Check: d.Category, FixIdx: fi, FixMsg: d.SuggestedFixes[fi].Message, Patched: decl, EffectsOnly: effectsOnly})
 	})
 	if err != nil || n == 0 {
 		res.NotExhaustive(fmt.Sprintf("template packages were not analysed: %v", err))
@@ -506,9 +528,25 @@ func fl(i int, b bool) float64 {
 }
 
 type pair struct {
-	name string
-	o, n fn
+	name        string
+	o, n        fn
+	effectsOnly bool // do not compare returned values
 }
+
+func refill() {
+	for len(ich) > 0 {
+		<-ich
+	}
+	for len(fch) > 0 {
+		<-fch
+	}
+	for i := 0; i < cap(ich); i++ {
+		ich <- 1
+		fch <- 1
+	}
+}
+
+func trace() string { return fmt.Sprint(Log, " left:", len(ich), len(fch)) }
 
 func class(e interface{}) string {
 	s := fmt.Sprint(e)
@@ -520,13 +558,14 @@ func class(e interface{}) string {
 
 func call(f fn, a, b int, p, q bool, s, t string, x, y float64) (kind, val, log string) {
 	Log = nil
+	refill()
 	defer func() {
 		if e := recover(); e != nil {
-			kind, val, log = "panic", class(e), fmt.Sprint(Log)
+			kind, val, log = "panic", class(e), trace()
 		}
 	}()
 	r := f(a, b, p, q, s, t, x, y)
-	return "ret", fmt.Sprintf("%#v", r), fmt.Sprint(Log)
+	return "ret", fmt.Sprintf("%#v", r), trace()
 }
 
 func main() {
@@ -545,7 +584,7 @@ func main() {
 								inputs++
 								k1, v1, l1 := call(pr.o, a, b, p, q, s, t, fl(a, p), fl(b, q))
 								k2, v2, l2 := call(pr.n, a, b, p, q, s, t, fl(a, p), fl(b, q))
-								if k1 == k2 && v1 == v2 && l1 == l2 {
+								if k1 == k2 && l1 == l2 && (v1 == v2 || (pr.effectsOnly && k1 == "ret")) {
 									continue
 								}
 								diffs++
@@ -561,7 +600,7 @@ func main() {
 										if v1 == v2 {
 											cl = "effects-before-panic"
 										}
-									case v1 == v2:
+									case v1 == v2 || pr.effectsOnly:
 										cl = "effects"
 									}
 									fmt.Fprintf(w, "DIFF\t%s\t%s\ta=%d,b=%d,p=%v,q=%v,s=%q,t=%q,f=%v,g=%v\t%s %s log=%s\t%s %s log=%s\n", pr.name, cl, a, b, p, q, s, t, fl(a, p), fl(b, q), k1, v1, l1, k2, v2, l2)
@@ -588,13 +627,13 @@ func c16Execute(res *vx.Result, st *c16Stats, mod string, fills []c16Filling, pa
 	}
 	os.WriteFile(filepath.Join(mod, "orig.go"), orig.Bytes(), 0o644)
 	var pf, tab bytes.Buffer
-	pf.WriteString("package main\n\nimport (\n\t\"bytes\"\n\t\"errors\"\n\t\"fmt\"\n\t\"net/http\"\n\t\"strings\"\n\t\"time\"\n)\n\nvar (\n\t_ = bytes.Compare\n\t_ = errors.New\n\t_ = fmt.Sprint\n\t_ = http.CanonicalHeaderKey\n\t_ = strings.Index\n\t_ time.Duration\n)\n")
+	pf.WriteString("package main\n\nimport (\n\t\"bytes\"\n\t\"errors\"\n\t\"fmt\"\n\t\"math\"\n\t\"net/http\"\n\t\"strings\"\n\t\"time\"\n)\n\nvar (\n\t_ = bytes.Compare\n\t_ = errors.New\n\t_ = fmt.Sprint\n\t_ = math.Pow\n\t_ = http.CanonicalHeaderKey\n\t_ = strings.Index\n\t_ time.Duration\n)\n")
 	tab.WriteString("package main\n\nvar pairs = []pair{\n")
 	byName := map[string]*c16Pair{}
 	for i := range pairs {
 		p := &pairs[i]
 		pf.WriteString("\n" + p.Patched + "\n")
-		fmt.Fprintf(&tab, "\t{%q, %s, %s},\n", p.Name, p.Fill.Name, p.Name)
+		fmt.Fprintf(&tab, "\t{%q, %s, %s, %v},\n", p.Name, p.Fill.Name, p.Name, p.EffectsOnly)
 		byName[p.Name] = p
 	}
 	tab.WriteString("}\n")
